@@ -4,8 +4,9 @@ import json, os, shutil, subprocess, sys, tempfile, time
 
 pid = sys.argv[1]
 props = [pid] + sys.argv[2:]
-src = f"/tmp/seed_out/{pid}"
-out = f"/verif/seeded/{pid}"
+# a second / third round of seeds: SEED_SRC=/tmp/seed_out2 SEED_SUFFIX=b  ->  /verif/seeded/<Cxx>b/
+src = f"{os.environ.get('SEED_SRC', '/tmp/seed_out')}/{pid}"
+out = f"/verif/seeded/{pid}{os.environ.get('SEED_SUFFIX', '')}"
 d = tempfile.mkdtemp(prefix=f"seedchk_{pid}_")
 rec = {"property": pid, "ran": []}
 
